@@ -35,13 +35,18 @@ for n in (127, 128, 129, 130, 200, 300):
     add("[" + ",".join("[[%d],[]]" % (i % 10) for i in range(n // 2)) + "]")
 # characters that are invisible or that a tolerant reader might strip, INSIDE strings and keys (they are ordinary characters there) and in
 # front of the document (where none of them is JSON)
-for ch in ["\ufeff", "\u200b", "\u00ad", "\u2060", "\ufffe", "\u200e", "\u00a0", "\u2028", "\x7f", "\u0085"]:
+for ch in ["\ufeff", "\u200b", "\u00ad", "\u2060", "\ufffe", "\u200e", "\u00a0", "\u2028", "\u2029", "\x7f", "\u0085", "\u2027", "\u202a"]:
     add('["a%sb"]' % ch)
     add('{"a%sb":1,"ab":2}' % ch)
     add('["%stail","head%s"]' % (ch, ch))
     add('{"%s":"%s"}' % (ch, ch))
     add(ch + '[1]')
     add('[1]' + ch)
+# CR LF inside string values and keys, written raw-escaped and as \\u escapes, in both orders and doubled; the two Unicode separators together
+for v in ["a\\r\\nb", "\\r\\n", "x\\u000d\\u000Ay", "\\r\\r\\n\\n", "\\n\\r", "line1\\r\\nline2\\r\\n", "\u2028\u2029", "\\u2029", "\u2029x\u2028"]:
+    add('["%s"]' % v)
+    add('{"v":"%s","%s":1}' % (v, v))
+    add('{"a":{"b":["%s","%s"]}}' % (v, v))
 out = os.path.join(VERIF, "spec", "gen", "json_pools.ndjson")
 with open(out, "w") as f:
     for c in cases:
